@@ -382,11 +382,24 @@ void vf_case(Ctx& ctx, uint64_t i) {
   }
   if (!sc.ok) { ctx.count("generator_gave_up"); return; }
   Paths64 P = sc.paths;
+  // satellite (8% of the ordinary scenes): one more small outer polygon very far from the rest of the group - spread/size
+  // ratios of 2^10 .. 2^35. Anything a group computes once for all its paths (orientation of the lowest path, bounds,
+  // a common origin) is then decided by numbers of very different magnitude
+  bool has_satellite = false;
+  if (rho == 0 && szi <= 4 && r.chance(0.08)) {
+    const double sz = r.real(8, 200); const int64_t D = (int64_t)1 << r.irange(std::max(14, (int)std::log2(S) + 3), 38);
+    const int64_t sx = (r.coin() ? 1 : -1) * (D + r.range(0, D / 2)), sy = (r.coin() ? 1 : -1) * (D + r.range(0, D / 2));
+    for (int t = 0; t < 6; ++t) {
+      Paths64 P2 = P; P2.push_back(gen::star_shaped(r, sx, sy, sz, r.irange(3, 8), 0.55, 1.0, true));
+      offs::SceneInfo si;
+      if (offs::swh_verify(P2, &si) == 0 && si.conv == 1 && si.outers == sc.outers + 1 && si.holes == sc.holes) { P.swap(P2); ++sc.outers; has_satellite = true; ctx.count("scenes_with_a_far_satellite_polygon"); break; }
+    }
+  }
   // rigid integer motions / relabelling: keep every verified premise
   for (auto& p : P) std::rotate(p.begin(), p.begin() + (long)r.range(0, (int64_t)p.size() - 1), p.end());
   r.shuffle(P);
   if (reversed) gen::reverse_all(P);
-  if (szi <= 5 && r.chance(0.2)) {
+  if (szi <= 5 && r.chance(0.2) && !has_satellite) {
     int64_t room = ((int64_t)1 << 40);
     gen::translate(P, r.range(-room, room), r.range(-room, room));
     ctx.count("translated_far");
